@@ -6,11 +6,13 @@ ASSUME = [
     "TLA+ Cut!Proj is the reference projection; same type definition on both sides => the input is reproduced (identity clause at every level)",
     "abstract descriptor -> IDL text by the harness printer -> real parser -> structural dump; TLC checks dump = abstract descriptor at every Desc event",
     "zero-filled fields may appear in any position; source-derived fields must keep source order",
+    "Protobuf half: the reference implementation decodes the output under the target schema (no unknown fields may remain); TLA+ PCut!PProj is the projection by field number",
     "inputs conform to the source descriptor (required source fields present); DisallowUnknow only exercised with conforming inputs",
 ]
 RULE = ("cases = every state (descriptor pair, value, options) of MC_Cut (target = arbitrary subsets/supersets at 3 struct levels, shared "
         "sub-definitions, identical descriptor) + seeded random struct graphs (self references, list/set/map nesting, ids up to 32767) with "
-        "derived targets; each case is cut with the Go and the native skipper; results are judged by TLC (Trace_Cut)")
+        "derived targets; each case is cut with the Go and the native skipper; results are judged by TLC (Trace_Cut).  Protobuf half: every state of MC_PCut (universe messages x targets dropping Root / Sub fields; laws identity, idempotence, commutation of restrictions) "
+        "+ seeded random schemas with fields dropped and added at every message type, or the identical descriptor; proto generic.Value.MarshalTo output decoded by protobuf-go under the target schema and judged by TLC (Trace_PCut)")
 
 
 def run(R):
@@ -34,6 +36,23 @@ def run(R):
     R.drive("c11", "out=" + tr2, "n=%d" % n, "seed=%d" % R.seed, timeout=3000)
     R.validate("Trace_Cut", tr2, reset_events=("Desc",), timeout=3000)
     R.extra_cov["tlc_cases_replayed"] = len(cases)
+    # ---- Protobuf half ----
+    mc2 = R.model_check("MC_PCut", "MC_PCut_quick.cfg" if q else "MC_PCut_thorough.cfg", timeout=3000, workers=8)
+    schema = [r for r in mc2["records"] if r.get("tag") == "schema"][0]["schema"]
+    pcases = [r for r in mc2["records"] if r.get("tag") == "case"]
+    mc2["records"] = None
+    cf2 = os.path.join(R.scratch, "c11p-cases.ndjson")
+    with open(cf2, "w") as f:
+        f.write(json.dumps(dict(schema=schema)) + "\n")
+        for c in pcases:
+            f.write(json.dumps(dict(expect=c["expect"], b=c["b"], droproot=c["droproot"], dropsub=c["dropsub"])) + "\n")
+    tr3 = os.path.join(R.scratch, "c11p-a.ndjson")
+    R.drive("c11p", "out=" + tr3, "cases=" + cf2, timeout=3000)
+    R.validate("Trace_PCut", tr3, reset_events=("PSchema",), timeout=3000)
+    tr4 = os.path.join(R.scratch, "c11p-b.ndjson")
+    R.drive("c11p", "out=" + tr4, "n=%d" % (400 if q else 15000), "seed=%d" % R.seed, timeout=3000)
+    R.validate("Trace_PCut", tr4, reset_events=("PSchema",), timeout=3000)
+    R.extra_cov["tlc_proto_cases_replayed"] = len(pcases)
     return vlib.finish(R, "model_checking", RULE, ASSUME)
 
 
@@ -43,6 +62,10 @@ def replay(R, path):
     with open(cf, "w") as f:
         f.write(json.dumps(rec["case"]) + "\n")
     tr = os.path.join(R.scratch, "replay-out.ndjson")
+    if "|PCutEv|" in rec.get("fingerprint", ""):
+        R.drive("c11p", "out=" + tr, "cases=" + cf)
+        R.validate("Trace_PCut", tr, reset_events=("PSchema",), batches=1)
+        return vlib.finish(R, "model_checking", RULE, ASSUME)
     R.drive("c11", "out=" + tr, "cases=" + cf)
     R.validate("Trace_Cut", tr, reset_events=("Desc",), batches=1)
     return vlib.finish(R, "model_checking", RULE, ASSUME)
